@@ -17,7 +17,8 @@ WALL_CAP = {"quick": 150, "thorough": 3000}
 RULE = ("one case = one generated handler program (2-6 event names, 3-10 handler callables with scripts that "
         "post/post_boolean/post_relay with or without completion callback, add/replace/remove handlers by "
         "key/event/method, defer a post through a delay, add/reset/remove/run_now a named delay whose callback "
-        "posts, flip a switch, return False/dict; priorities distinct, "
+        "posts, flip a switch, return False/dict; plain, boolean, relay and queue (post_queue/post_queue_async, "
+        "optionally with a wait) events on the same event names; priorities distinct, "
         "tied or flat; registered kwargs colliding with posted ones; conditions) run in 1-3 episodes on one booted "
         "machine (registration history carries over), each with a random registration history and 3-12 roots posted "
         "from MPF's boot sequence, the driver, a plain loop timer, a DelayManager callback, an untimed/timed switch "
@@ -34,7 +35,8 @@ PROBES = ["delivery", "callback", "episode_boundary", "root_from_boot", "root_fr
           "r3_add_while_waiting", "r3_remove_while_waiting", "post_then_add_in_handler",
           "sibling_before_waiting", "rm_method_multi_event", "replace_hit", "run_now_in_handler",
           "run_now_in_nested_event", "run_now_outside_handler", "post_in_run_now", "named_delay_replaced",
-          "named_delay_removed"]
+          "named_delay_removed", "queue_post", "queue_post_async", "queue_delivery", "queue_kw_override",
+          "queue_cond_pass", "queue_second_handler", "queue_wait", "queue_callback"]
 REAL = ["mpf.core.events.EventManager (add/replace/remove handlers, post/post_boolean/post_relay/post_queue, "
         "process_event_queue)", "mpf.core.delays.DelayManager", "mpf.core.switch_controller.SwitchController "
         "(untimed + timed handlers)", "mpf.core.placeholder_manager (handler conditions)", "MachineController boot"]
@@ -50,7 +52,7 @@ TECHNIQUE = "lock-step executable reference model (stack of FIFO queues + snapsh
 
 EVENTS = ["e0", "e1", "e2", "e3", "e4", "e5"]
 CONDS = [[["c", "==", 1]], [["c", ">", 0]], [["c", "!=", 1]], [["a", "==", 1]],
-         [["c", "==", 1], ["d", "==", 0]], [["d", "<", 2]]]
+         [["c", "==", 1], ["d", "==", 0]], [["d", "<", 2]], [["b", "==", 1]], [["a", ">", 0], ["b", "<", 3]]]
 RETS = [(None, 7), (False, 1.6), (True, 0.4), ({"a": 7}, 0.8), ({"c": 1}, 0.6), ({"d": 5, "b": 9}, 0.5)]
 DELAY_NAMES = ["d0", "d1"]
 T0 = 1.0
@@ -105,6 +107,11 @@ def _gen_post(g, where):
         op["kw"] = _kw(ch, "pkw", ["a", "b", "c", "c", "d"], 3, 2)
     if g.ncb and ch.flag("hascb", 0.35):
         op["cb"] = ch.choice("cbi", g.ncb)
+    if ch.flag("isqueue", 0.14):
+        # a queue event on the same event names / handlers: only the per-delivery rules apply (see models/bus.py)
+        op.update(type="queue", bare=False, qasync=ch.flag("qasync", 0.4), qwait=ch.pick("qpwait", [0, 0, 1, 3]))
+        if not op["kw"]:
+            op["kw"] = _kw(ch, "qkw", ["a", "b", "c", "h"], 3, 3)
     return op
 
 
@@ -340,7 +347,35 @@ def execute(ctx, plan):
         def __repr__(self):
             return "<%s@%s>" % (self.hid, self.event)
 
+    def on_qhandler(hid, event, kwargs, queue):
+        """Delivery of a queue event (runs in the queue event's own task = outside any plain dispatch)."""
+        now = loop.time()
+        st["invoc"] += 1
+        post, reg = model.qhandler_enter(hid, event, kwargs)
+        ctx.log("qh", hid, post.pid if post else None, event, sorted(kwargs.items()), reg.rid if reg else None, t=now)
+        if post is not None and reg is not None:
+            ctx.probe("queue_delivery")
+            if any(k in post.kw and post.kw[k] != v for k, v in reg.kw.items()):
+                ctx.probe("queue_kw_override")
+            if reg.cond:
+                ctx.probe("queue_cond_pass")
+            if len(post.q_delivered) > 1:
+                ctx.probe("queue_second_handler")
+        outer = st["where"]
+        st["where"] = ("qh", hid)
+        if st["invoc"] <= MAX_INVOC:
+            run_script(handlers[hid]["script"], "root")
+        if post is not None and qwaits.get(post.pid):
+            ms = qwaits.pop(post.pid) * 125
+            ctx.probe("queue_wait")
+            queue.wait()
+            m.delay.add(ms, queue.clear)
+        st["where"] = outer
+        return None
+
     def on_handler(hid, event, kwargs):
+        if "queue" in kwargs:
+            return on_qhandler(hid, event, kwargs, kwargs.pop("queue"))
         now = loop.time()
         st["invoc"] += 1
         post, reg = model.handler_enter(hid, event, kwargs)
@@ -409,6 +444,36 @@ def execute(ctx, plan):
 
     post_futs = {}
     nohandler = {}
+    qwaits = {}
+
+    def do_qpost(op, where):
+        """post_queue / post_queue_async on an ordinary event name."""
+        st["posts"] += 1
+        ev = op["event"]
+        kw = dict(op["kw"])
+        kw["pid"] = len(model.posts)
+        post = model.post_queue(ev, kw, st["where"])
+        ctx.log("qpost", post.pid, ev, sorted(kw.items()), bool(op.get("qasync")), st["where"][0], t=loop.time())
+        ctx.probe("queue_post_async" if op.get("qasync") else "queue_post")
+        if op.get("qwait"):
+            qwaits[post.pid] = op["qwait"]
+        cbi = op["cb"]
+
+        def done(**kwargs):
+            ctx.log("qcb", post.pid, ev, sorted(kwargs.items()), t=loop.time())
+            model.qcallback_enter(post, kwargs)
+            ctx.probe("queue_callback")
+            outer = st["where"]
+            st["where"] = ("cb", post.pid)
+            if cbi is not None and st["invoc"] <= MAX_INVOC:
+                run_script(cbs[cbi], "cb")
+            st["where"] = outer
+        if op.get("qasync"):
+            fut = events.post_queue_async(ev, **kw)
+            fut.add_done_callback(lambda f: done(**f.result()))
+        else:
+            events.post_queue(ev, done, **kw)
+        return post
 
     # -- program operations (applied to the model and to the SUT together) --------------------
     def cur_event(op):
@@ -423,6 +488,8 @@ def execute(ctx, plan):
             return None
         if model.in_handler() and model.cur is not None and model.cur.post.depth >= MAX_DEPTH:
             return None
+        if op["type"] == "queue":
+            return do_qpost(op, where)
         st["posts"] += 1
         ev = op["event"]
         kw = dict(op["kw"])
@@ -768,7 +835,13 @@ def execute(ctx, plan):
     settle()
     sim.run_quiet(1.0)
     settle()
+    n = 0
+    while model.qcb_open and n < 60:                  # queue events with outstanding waits (each <= 375 ms)
+        sim.run_quiet(0.5)
+        settle()
+        n += 1
     model.quiesce("end of run")
+    model.quiesce_queue("end of run, %.1f s after the last stimulus" % (loop.time() - end))
     for tk in tasks:
         if not tk.done():
             raise AssertionError("task did not finish")
@@ -805,7 +878,11 @@ def _boot(sim, state, until_events=False):
     init.result()
     if until_events:
         raise AssertionError("boot finished before the hook point")
-    sim.machine.events.process_event_queue()
+    aev._set_running_loop(loop)      # a queue event posted during boot creates its task here
+    try:
+        sim.machine.events.process_event_queue()
+    finally:
+        aev._set_running_loop(None)
     sim.run(0.001)
     loop.stall_enabled = state[1]
     sim.booted = True
